@@ -428,7 +428,69 @@ func c14Diff(w *World, r *Report) {
 			ob.Violate("catalogued-ids/"+f, fn.Pos(), "diffTables does not count a record's "+f+" as catalogued: a restoring/active shard is stopped")
 		}
 	}
+	// the consumer: every id of the start set is started under that id (the set's key - a record
+	// has two ids, ClusterID and RecoverID), every element of the stop list is stopped
+	for _, ci := range w.CallersOf(fn) {
+		host := ci.Parent()
+		cv, ok := ci.(ssa.Value)
+		if !ok {
+			continue
+		}
+		hctx := &ExprCtx{Alias: map[ssa.Value]string{cv: "diff"}}
+		nStart, nStop := 0, 0
+		eachInstr(host, func(in ssa.Instruction) {
+			c := plainCall(in)
+			if c == nil {
+				return
+			}
+			cal := StaticCallee(c)
+			if cal == nil {
+				return
+			}
+			switch cal.Name() {
+			case "startTable":
+				nStart++
+				name, id := hctx.Expr(c.Args[1]), hctx.Expr(c.Args[2])
+				ob.Site(in.Pos(), "reconcile starts ("+name+", "+id+")")
+				// id: the key of the iteration over the start set
+				if !isRangeKeyOf(c.Args[2], cv, 0) {
+					ob.Violate("start-id-source@"+FnName(host), in.Pos(), "the shard is started under `"+id+"`, not under the id the start set lists it with (a record restoring from a backup is catalogued under two ids)")
+				}
+			case "stopTable":
+				nStop++
+				id := hctx.Expr(c.Args[1])
+				ob.Site(in.Pos(), "reconcile stops "+id)
+				if !strings.HasPrefix(id, "diff#1[") {
+					ob.Violate("stop-id-source@"+FnName(host), in.Pos(), "the shard stopped is `"+id+"`, not an element of the stop list")
+				}
+			}
+		})
+		if nStart == 0 {
+			ob.Violate("start-set-ignored@"+FnName(host), ci.Pos(), FnName(host)+" does not start the shards of the start set")
+		}
+		if nStop == 0 {
+			ob.Violate("stop-list-ignored@"+FnName(host), ci.Pos(), FnName(host)+" does not stop the shards of the stop list")
+		}
+	}
 	ob.NeedFloor(4)
+}
+
+// isRangeKeyOf: v is the key produced by ranging over the idx-th result of the call `tuple`.
+func isRangeKeyOf(v ssa.Value, tuple ssa.Value, idx int) bool {
+	ex, ok := v.(*ssa.Extract)
+	if !ok || ex.Index != 1 {
+		return false
+	}
+	nx, ok := ex.Tuple.(*ssa.Next)
+	if !ok {
+		return false
+	}
+	rg, ok := nx.Iter.(*ssa.Range)
+	if !ok {
+		return false
+	}
+	src, ok := rg.X.(*ssa.Extract)
+	return ok && src.Tuple == tuple && src.Index == idx
 }
 
 func flowsToReturn(v ssa.Value, fn *ssa.Function) bool {
@@ -535,12 +597,15 @@ func c14Isolation(w *World, r *Report) {
 // ---------------------------------------------------------------------------------------
 
 func checkC15(w *World, r *Report) {
-	r.Decides = "C15 is decided in its structural part only: (a) the lease write is reachable only over an edge establishing 'unclaimed' (the lease key is not stored), 'holder == this node' or 'expiry before now', its version argument is the version of the pair that was inspected, nil is returned only after its success edge and ErrLeaseNotAcquired otherwise; (b) the lease is deleted only over the edge holder == this node, with the version read; (c) the replication worker replicates and recovers only while its leased flag is true, the flag is set from the lease call's outcome, and the lease is requested for longer than the renewal period."
-	r.NotDecided = []string{"lease expiry under clock skew between nodes", "atomicity of the compare-and-set itself (C13.a)"}
+	r.Decides = "C15 is decided in its structural part only: (a) the lease write is reachable only over an edge establishing 'unclaimed' (the lease key is not stored), 'holder == this node' or 'expiry before now', its version argument is the version of the pair that was inspected, nil is returned only after its success edge and ErrLeaseNotAcquired otherwise; (b) the lease is deleted only over the edge holder == this node, with the version read; (c) the replication worker replicates and recovers only while its leased flag is true, the flag is set from the lease call's outcome, and the lease is requested for longer than the renewal period; (d) the metadata store underneath is a compare-and-set whose versions are log indices (the obligations C13.a and C13.b): a version seen before a delete and re-creation can never match again."
+	r.NotDecided = []string{"lease expiry under clock skew between nodes"}
 	r.Assume = []string{"C13: compare-and-set semantics of the metadata store; versions are never 0"}
 	c15Lease(w, r)
 	c15Return(w, r)
 	c15Worker(w, r, "C15.c", "c-worker-obeys-lease")
+	// the compare-and-set the lease relies on: a version handed out once never comes back
+	// (versions are log indices), and a write needs the current version (shared with C13.a/b)
+	c13Gate(w, r, metaUpdate(w), "C15.d1", "C15.d2")
 }
 
 func c15Lease(w *World, r *Report) {
